@@ -1,6 +1,7 @@
 import Pycoin.Model.Sign
 import Pycoin.Proofs.SignDer
 import Pycoin.Proofs.SignEval
+import Pycoin.Proofs.SignWrap
 import Pycoin.Proofs.SignLink
 import Pycoin.Proofs.SignOrder
 import Pycoin.Proofs.SignKeychain
@@ -19,7 +20,8 @@ C05 — property theorems about the signer model (`Model/Sign.lean`).
 * `C05_p2wpkh_end_to_end`, `C05_p2sh_p2wpkh_end_to_end`, `C05_p2pkh_end_to_end`, `C05_p2pk_end_to_end`: for every secret, tx and
   input, the model's signature is accepted by `VerifyScript` with `CheckSig` = ECDSA-verify (C01) of the C04 digest;
 * `C05_witness_digest_is_bip143`, `C05_legacy_digest_is_consensus`: the digest of those theorems is the consensus one (C04);
-* `C05_multisig_valid_partial`, `C05_multisig_p2wsh_valid_partial`: full-script m-of-n for all 1 ≤ m ≤ n ≤ 16, bare and P2WSH;
+* `C05_multisig_valid`, `C05_multisig_p2sh_valid`, `C05_multisig_p2wsh_valid`, `C05_multisig_p2sh_p2wsh_valid`: full-script m-of-n for
+  all 1 ≤ m ≤ n ≤ 20 (counts 17..20 as the one-byte pushes pycoin emits), the four wrappers; `C05_p2sh_multisig_size`;
 * `C05_keychain_get_spec`, `C05_keychain_no_negative_cache`, `C05_keychain_miss_then_hit`, `C05_keychain_add_secret`;
 * `C05_p2pkh_valid`, `C05_p2pk_valid`, `C05_p2wpkh_valid`, `C05_p2sh_p2wpkh_valid` (+ `_signed_valid` forms): `VerifyScript` of
   `Spec/Consensus.lean` accepts the solutions, for every flag set under which signature and key pass the encoding rules;
@@ -410,7 +412,8 @@ example : standardFlags.strictenc = true ∧ standardFlags.lowS = true ∧ stand
 accepts, for every `m ≤ n` (no bound on `n` is needed here), signatures that pass the encoding rules and verify for a
 subsequence of the keys — which is how the solver lays them out: `sig_list` is filled in increasing index of `sec_list`, the
 keys top of stack first (`solveBase`, `sortSigs`).  Induction over the keys.
-The full scripts around the loop are `C05_multisig_valid_partial` (bare) and `C05_multisig_p2wsh_valid_partial` below. -/
+The full scripts around the loop are `C05_multisig_valid` (bare), `C05_multisig_p2sh_valid`, `C05_multisig_p2wsh_valid` and
+`C05_multisig_p2sh_p2wsh_valid` below. -/
 theorem C05_multisig_loop_accepts (chk : PChk) (flags : Flags) (sv : SigVersion) (code : Bytes) (keys sigs : List Bytes)
     (hemb : Embeds chk code sv sigs keys)
     (hs : ∀ s ∈ sigs, checkSignatureEncoding s flags = none) (hk : ∀ k ∈ keys, checkPubKeyEncoding k flags sv = none) :
@@ -459,14 +462,41 @@ theorem C05_ecdsa_chk_accepts (C : Crypto) (hN : C.order = secp256k1N) (dig : Si
   have e2 : (((lowS secp256k1N s).toNat : Nat) : Int) = lowS secp256k1N s := by omega
   rw [e1, e2, hv]
 
-/-- **Bare m-of-n multisig, full script** (`1 ≤ m ≤ n ≤ 16`, the `OP_n` encodings), by induction over the keys: the consensus
-specification accepts `OP_0 <sig>…` — the dummy first (NULLDUMMY), signatures in key order — against
-`OP_m <key>… OP_n CHECKMULTISIG` under every flag set for which signatures and keys pass the encoding rules, when `CheckSig`
-accepts the signatures for a subsequence of the keys.
-`_partial` relative to the property's clause: `n ≤ 16` (for 17 ≤ n ≤ 20 the counts are one-byte pushes, not `OP_n`), and the P2SH
-and P2SH-P2WSH wrappers (redeem-script pushes with PUSHDATA1/2) are not carried; those are exercised on the implementation by
-the harness for all `1 ≤ m ≤ n ≤ 20` within the size limits. -/
-theorem C05_multisig_valid_partial (chk : PChk) (m : Nat) (keys sigsTop : List Bytes) (flags : Flags) (tx : TxCtx)
+/-- the script code `CheckSig` sees in a witness-v0 script is the script itself -/
+theorem scriptCodeFor_witness' (script : Bytes) (flags : Flags) (tx : TxCtx) (sigs : List Bytes) :
+    scriptCodeFor ⟨script, flags, .witnessV0, tx⟩ ⟨[], [], [], 0, 0⟩ sigs = script := by
+  simp [scriptCodeFor]
+
+/-! ## m-of-n multisig, every `1 ≤ m ≤ n ≤ 20`, the four wrappers -/
+
+/-- **Bare m-of-n multisig, full script, every `1 ≤ m ≤ n ≤ 20`.**  The consensus specification accepts `OP_0 <sig>…` — the dummy
+first (NULLDUMMY), signatures in key order — against `m <key>… n CHECKMULTISIG` under every flag set for which signatures and
+keys pass the encoding rules, when `CheckSig` accepts the signatures for a subsequence of the keys.  The counts are written as
+pycoin's script compiler writes them (`multisigScriptN`): `OP_1 … OP_16`, and for 17..20 the one-byte pushes `01 11 … 01 14`,
+which is also the only encoding MINIMALDATA admits (`checkMinimalPush_count`, `checkMinimalPush_count_small`). -/
+theorem C05_multisig_valid (chk : PChk) (m : Nat) (keys sigsTop : List Bytes) (flags : Flags) (tx : TxCtx)
+    (hm : sigsTop.length = m) (hm1 : 1 ≤ m) (hmn : m ≤ keys.length) (hn : keys.length ≤ 20)
+    (hkeys : ∀ k ∈ keys, 2 ≤ k.length ∧ k.length ≤ 75) (hsigs : ∀ s ∈ sigsTop, 2 ≤ s.length ∧ s.length ≤ 75)
+    (hse : ∀ s ∈ sigsTop, checkSignatureEncoding s flags = none)
+    (hke : ∀ k ∈ keys, checkPubKeyEncoding k flags .base = none)
+    (hemb : Embeds chk (scriptCodeFor ⟨multisigScriptN m keys, flags, .base, tx⟩ ⟨[], [], [], 0, 0⟩ sigsTop) .base
+      sigsTop keys.reverse) :
+    verifyScript chk (pushesOf ([] :: sigsTop.reverse)) (multisigScriptN m keys) [] flags tx = none := by
+  have hitems : ∀ d ∈ ([] : Bytes) :: sigsTop.reverse, d.length = 0 ∨ (2 ≤ d.length ∧ d.length ≤ 75) := by
+    intro d hd
+    rcases List.mem_cons.mp hd with h | h
+    · left; rw [h]; rfl
+    · right; exact hsigs d (List.mem_reverse.mp h)
+  rw [verifyScript_bare_eq chk _ _ flags tx (sigsTop ++ [[]])
+    (isPushOnly_pushes _ (fun d hd => by rcases hitems d hd with h | h <;> omega))
+    (by have := evalScript_pushes chk ([] :: sigsTop.reverse) flags tx hitems (by simp; omega); simpa using this)
+    (multisigN_not_witness m keys (by omega) hkeys) (multisigN_not_p2sh m keys)]
+  rw [evalScript_multisigN chk m keys sigsTop flags tx .base hm hm1 hmn hn hkeys
+    (multisigLoop_accepts chk flags .base _ keys.reverse sigsTop hemb hse (fun k hk => hke k (List.mem_reverse.mp hk)))]
+  exact legacyVerdict_true flags
+
+/-- the `OP_n` form for `n ≤ 16` (the statement this file carried before the counts 17..20 were covered) -/
+theorem C05_multisig_valid_opn (chk : PChk) (m : Nat) (keys sigsTop : List Bytes) (flags : Flags) (tx : TxCtx)
     (hm : sigsTop.length = m) (hm1 : 1 ≤ m) (hmn : m ≤ keys.length) (hn : keys.length ≤ 16)
     (hkeys : ∀ k ∈ keys, 2 ≤ k.length ∧ k.length ≤ 75) (hsigs : ∀ s ∈ sigsTop, 2 ≤ s.length ∧ s.length ≤ 75)
     (hse : ∀ s ∈ sigsTop, checkSignatureEncoding s flags = none)
@@ -474,25 +504,35 @@ theorem C05_multisig_valid_partial (chk : PChk) (m : Nat) (keys sigsTop : List B
     (hemb : Embeds chk (scriptCodeFor ⟨multisigScript m keys, flags, .base, tx⟩ ⟨[], [], [], 0, 0⟩ sigsTop) .base
       sigsTop keys.reverse) :
     verifyScript chk (pushesOf ([] :: sigsTop.reverse)) (multisigScript m keys) [] flags tx = none := by
-  have hitems : ∀ d ∈ ([] : Bytes) :: sigsTop.reverse, d.length = 0 ∨ (2 ≤ d.length ∧ d.length ≤ 75) := by
+  rw [← multisigScriptN_eq m keys (by omega) hn] at hemb ⊢
+  exact C05_multisig_valid chk m keys sigsTop flags tx hm hm1 hmn (by omega) hkeys hsigs hse hke hemb
+
+/-- **P2WSH m-of-n multisig, every `1 ≤ m ≤ n ≤ 20`**: empty scriptSig, witness `[ "" , sig…, witnessScript ]` against
+`OP_0 <sha256 witnessScript>`; needs WITNESS and a program that is not all zero bytes.  (The witness script is not a stack
+item: no 520-byte limit applies to it, and 20 keys stay far below the 10,000-byte script limit.) -/
+theorem C05_multisig_p2wsh_valid (chk : PChk) (m : Nat) (keys sigsTop : List Bytes) (prog : Bytes) (flags : Flags) (tx : TxCtx)
+    (hw : flags.witness = true)
+    (hprog : Hash.sha256 (multisigScriptN m keys) = prog) (hplen : prog.length = 32) (htrue : castToBool prog = true)
+    (hm : sigsTop.length = m) (hm1 : 1 ≤ m) (hmn : m ≤ keys.length) (hn : keys.length ≤ 20)
+    (hkeys : ∀ k ∈ keys, 2 ≤ k.length ∧ k.length ≤ 75) (hsigs : ∀ s ∈ sigsTop, s.length ≤ 520)
+    (hse : ∀ s ∈ sigsTop, checkSignatureEncoding s flags = none)
+    (hke : ∀ k ∈ keys, checkPubKeyEncoding k flags .witnessV0 = none)
+    (hemb : Embeds chk (multisigScriptN m keys) .witnessV0 sigsTop keys.reverse) :
+    verifyScript chk [] (witnessV0Script prog) (([] : Bytes) :: sigsTop.reverse ++ [multisigScriptN m keys]) flags tx = none := by
+  have hitems : ∀ d ∈ ([] : Bytes) :: sigsTop.reverse, d.length ≤ 520 := by
     intro d hd
     rcases List.mem_cons.mp hd with h | h
-    · left; rw [h]; rfl
-    · right; exact hsigs d (List.mem_reverse.mp h)
-  apply verifyScript_plain chk _ _ flags tx (sigsTop ++ [[]]) [1]
-  · exact isPushOnly_pushes _ (fun d hd => by rcases hitems d hd with h | h <;> omega)
-  · have := evalScript_pushes chk ([] :: sigsTop.reverse) flags tx hitems (by simp; omega)
-    simpa using this
-  · exact evalScript_multisig chk m keys sigsTop flags tx .base hm hm1 hmn hn hkeys
-      (multisigLoop_accepts chk flags .base _ keys.reverse sigsTop hemb hse
-        (fun k hk => hke k (List.mem_reverse.mp hk)))
-  · simp [castToBool]
-  · exact multisig_not_witness m keys (by omega) hkeys
-  · exact multisig_not_p2sh m keys (by omega)
+    · rw [h]; simp
+    · exact hsigs d (List.mem_reverse.mp h)
+  rw [verifyScript_p2wsh_eq chk _ _ prog flags tx hw hprog hplen htrue hitems]
+  have hrev : (([] : Bytes) :: sigsTop.reverse).reverse = sigsTop ++ [[]] := by simp
+  rw [hrev, evalScript_multisigN chk m keys sigsTop flags tx .witnessV0 hm hm1 hmn hn hkeys
+    (by rw [scriptCodeFor_witness']; exact multisigLoop_accepts chk flags .witnessV0 _ keys.reverse sigsTop hemb hse
+          (fun k hk => hke k (List.mem_reverse.mp hk)))]
+  exact witnessVerdict_true
 
-/-- **P2WSH m-of-n multisig, full script** (`1 ≤ m ≤ n ≤ 16`): empty scriptSig, witness `[ "" , sig…, witnessScript ]` against
-`OP_0 <sha256 witnessScript>`; needs WITNESS and a program that is not all zero bytes. -/
-theorem C05_multisig_p2wsh_valid_partial (chk : PChk) (m : Nat) (keys sigsTop : List Bytes) (prog : Bytes) (flags : Flags) (tx : TxCtx)
+/-- the `OP_n` form for `n ≤ 16` -/
+theorem C05_multisig_p2wsh_valid_opn (chk : PChk) (m : Nat) (keys sigsTop : List Bytes) (prog : Bytes) (flags : Flags) (tx : TxCtx)
     (hw : flags.witness = true)
     (hprog : Hash.sha256 (multisigScript m keys) = prog) (hplen : prog.length = 32) (htrue : castToBool prog = true)
     (hm : sigsTop.length = m) (hm1 : 1 ≤ m) (hmn : m ≤ keys.length) (hn : keys.length ≤ 16)
@@ -501,41 +541,96 @@ theorem C05_multisig_p2wsh_valid_partial (chk : PChk) (m : Nat) (keys sigsTop : 
     (hke : ∀ k ∈ keys, checkPubKeyEncoding k flags .witnessV0 = none)
     (hemb : Embeds chk (multisigScript m keys) .witnessV0 sigsTop keys.reverse) :
     verifyScript chk [] (witnessV0Script prog) (([] : Bytes) :: sigsTop.reverse ++ [multisigScript m keys]) flags tx = none := by
-  have hcode : scriptCodeFor ⟨multisigScript m keys, flags, .witnessV0, tx⟩ ⟨[], [], [], 0, 0⟩ sigsTop = multisigScript m keys := by
-    simp [scriptCodeFor]
-  have hev := evalScript_multisig chk m keys sigsTop flags tx .witnessV0 hm hm1 hmn hn hkeys
-    (by rw [hcode]; exact multisigLoop_accepts chk flags .witnessV0 _ keys.reverse sigsTop hemb hse
-          (fun k hk => hke k (List.mem_reverse.mp hk)))
-  have hvw : verifyWitnessProgramM (m := Id) (fun a b c d => chk a b c d)
-      (([] : Bytes) :: sigsTop.reverse ++ [multisigScript m keys]) 0 prog flags tx = none := by
-    unfold verifyWitnessProgramM
-    have hrev : (([] : Bytes) :: sigsTop.reverse ++ [multisigScript m keys]).reverse = multisigScript m keys :: (sigsTop ++ [[]]) := by
-      simp
-    have hany : (sigsTop ++ [([] : Bytes)]).any (fun it => decide (it.length > MAX_SCRIPT_ELEMENT_SIZE)) = false := by
-      rw [List.any_eq_false]
-      intro x hx
-      have hx520 : x.length ≤ 520 := by
-        rcases List.mem_append.mp hx with h | h
-        · exact hsigs x h
-        · simp at h; rw [h]; simp
-      simp [MAX_SCRIPT_ELEMENT_SIZE]; omega
-    simp only [hplen, WITNESS_V0_SCRIPTHASH_SIZE, hrev, hprog]
-    simp [hany, bind, pure]
-    have : evalScriptM (m := Id) (fun a b c d => chk a b c d) (sigsTop ++ [[]]) (multisigScript m keys) flags tx .witnessV0
-        = .ok [[1]] := hev
-    rw [this]
-    simp [castToBool]
-  unfold verifyScript verifyScriptM
-  have hpo : isPushOnly [] = true := by simp [isPushOnly, isPushOnlyAux]
-  simp only [evalScriptM_id, hpo]
-  simp only [Id.run, bind, pure]
-  rw [evalScript_empty]
-  simp only []
-  rw [evalScript_witnessV0Script chk [] prog flags tx (by omega) (by omega) (by simp)]
-  simp only [hw, isWitnessProgram_v0 prog (by omega) (by omega), htrue, witnessV0_not_p2sh prog (Or.inr hplen)]
-  simp only [↓reduceIte]
-  rw [hvw]
-  simp
+  rw [← multisigScriptN_eq m keys (by omega) hn] at hemb hprog ⊢
+  exact C05_multisig_p2wsh_valid chk m keys sigsTop prog flags tx hw hprog hplen htrue hm hm1 hmn (by omega) hkeys hsigs hse hke hemb
+
+/-- **P2SH m-of-n multisig.**  scriptSig = `OP_0 <sig>… <redeemScript>`, the redeem script pushed as `CScript << vch` pushes it
+(direct push up to 75 bytes, `PUSHDATA1` up to 255, `PUSHDATA2` beyond: `getScriptOp_pushData`), against
+`HASH160 <hash160 redeemScript> EQUAL`; needs the P2SH flag.  The redeem script is a stack item: at most 520 bytes (`hsize`), which
+is what bounds `n` under P2SH — `C05_p2sh_multisig_size`: 15 compressed or 7 uncompressed keys. -/
+theorem C05_multisig_p2sh_valid (chk : PChk) (m : Nat) (keys sigsTop : List Bytes) (hr : Bytes) (flags : Flags) (tx : TxCtx)
+    (hp : flags.p2sh = true)
+    (hhr : Hash.hash160 (multisigScriptN m keys) = hr) (hrlen : hr.length = 20)
+    (hsize : (multisigScriptN m keys).length ≤ 520)
+    (hm : sigsTop.length = m) (hm1 : 1 ≤ m) (hmn : m ≤ keys.length) (hn : keys.length ≤ 20)
+    (hkeys : ∀ k ∈ keys, 2 ≤ k.length ∧ k.length ≤ 75) (hsigs : ∀ s ∈ sigsTop, 2 ≤ s.length ∧ s.length ≤ 75)
+    (hse : ∀ s ∈ sigsTop, checkSignatureEncoding s flags = none)
+    (hke : ∀ k ∈ keys, checkPubKeyEncoding k flags .base = none)
+    (hemb : Embeds chk (scriptCodeFor ⟨multisigScriptN m keys, flags, .base, tx⟩ ⟨[], [], [], 0, 0⟩ sigsTop) .base
+      sigsTop keys.reverse) :
+    verifyScript chk (pushesOf ([] :: sigsTop.reverse) ++ pushData (multisigScriptN m keys)) (p2shScript hr) [] flags tx
+      = none := by
+  have hitems : ∀ d ∈ ([] : Bytes) :: sigsTop.reverse, d.length = 0 ∨ (2 ≤ d.length ∧ d.length ≤ 75) := by
+    intro d hd
+    rcases List.mem_cons.mp hd with h | h
+    · left; rw [h]; rfl
+    · right; exact hsigs d (List.mem_reverse.mp h)
+  have h2 : 2 ≤ (multisigScriptN m keys).length := by
+    have := countPush_length m
+    simp [multisigScriptN]; split at this <;> omega
+  have hev := evalScript_pushes_pushData chk ([] :: sigsTop.reverse) (multisigScriptN m keys) flags tx hitems
+    (by simp; omega) h2 hsize
+  have hrev : (([] : Bytes) :: sigsTop.reverse).reverse = sigsTop ++ [[]] := by simp
+  rw [hrev] at hev
+  rw [verifyScript_p2sh_eq chk _ (multisigScriptN m keys) hr (sigsTop ++ [[]]) flags tx hp
+    (isPushOnly_pushes_pushData _ _ (fun d hd => by rcases hitems d hd with h | h <;> omega) hsize)
+    hev hhr hrlen (by simp; omega) (multisigN_not_witness m keys (by omega) hkeys)]
+  rw [evalScript_multisigN chk m keys sigsTop flags tx .base hm hm1 hmn hn hkeys
+    (multisigLoop_accepts chk flags .base _ keys.reverse sigsTop hemb hse (fun k hk => hke k (List.mem_reverse.mp hk)))]
+  exact legacyVerdict_true flags
+
+/-- **P2SH-P2WSH m-of-n multisig, every `1 ≤ m ≤ n ≤ 20`**: scriptSig = the push of `OP_0 <sha256 witnessScript>` (34 bytes: a
+direct push), witness `[ "", sig…, witnessScript ]`, against `HASH160 <hash160 redeem> EQUAL`; needs P2SH and WITNESS. -/
+theorem C05_multisig_p2sh_p2wsh_valid (chk : PChk) (m : Nat) (keys sigsTop : List Bytes) (prog hr : Bytes) (flags : Flags)
+    (tx : TxCtx) (hp : flags.p2sh = true) (hw : flags.witness = true)
+    (hprog : Hash.sha256 (multisigScriptN m keys) = prog) (hplen : prog.length = 32) (htrue : castToBool prog = true)
+    (hhr : Hash.hash160 (witnessV0Script prog) = hr) (hrlen : hr.length = 20)
+    (hm : sigsTop.length = m) (hm1 : 1 ≤ m) (hmn : m ≤ keys.length) (hn : keys.length ≤ 20)
+    (hkeys : ∀ k ∈ keys, 2 ≤ k.length ∧ k.length ≤ 75) (hsigs : ∀ s ∈ sigsTop, s.length ≤ 520)
+    (hse : ∀ s ∈ sigsTop, checkSignatureEncoding s flags = none)
+    (hke : ∀ k ∈ keys, checkPubKeyEncoding k flags .witnessV0 = none)
+    (hemb : Embeds chk (multisigScriptN m keys) .witnessV0 sigsTop keys.reverse) :
+    verifyScript chk (pushesOf [witnessV0Script prog]) (p2shScript hr)
+      (([] : Bytes) :: sigsTop.reverse ++ [multisigScriptN m keys]) flags tx = none := by
+  have hitems : ∀ d ∈ ([] : Bytes) :: sigsTop.reverse, d.length ≤ 520 := by
+    intro d hd
+    rcases List.mem_cons.mp hd with h | h
+    · rw [h]; simp
+    · exact hsigs d (List.mem_reverse.mp h)
+  rw [verifyScript_p2sh_p2wsh_eq chk _ _ prog hr flags tx hp hw hprog hplen htrue hhr hrlen hitems]
+  have hrev : (([] : Bytes) :: sigsTop.reverse).reverse = sigsTop ++ [[]] := by simp
+  rw [hrev, evalScript_multisigN chk m keys sigsTop flags tx .witnessV0 hm hm1 hmn hn hkeys
+    (by rw [scriptCodeFor_witness']; exact multisigLoop_accepts chk flags .witnessV0 _ keys.reverse sigsTop hemb hse
+          (fun k hk => hke k (List.mem_reverse.mp hk)))]
+  exact witnessVerdict_true
+
+/-- **Which (m, n) fit under P2SH.**  The redeem script `m <key>… n CHECKMULTISIG` has `3 + Σ (1 + |key|)` bytes for `n ≤ 16`
+(one more per count above 16).  With the 520-byte limit on stack items: all keys compressed (33 bytes) ⇒ exactly `n ≤ 15`; all
+keys uncompressed (65 bytes) ⇒ exactly `n ≤ 7`; any `1 ≤ m ≤ n`.  So under P2SH the counts are always `OP_n`; the push counts
+17..20 occur only bare and under P2WSH / P2SH-P2WSH, where the script is not a stack item. -/
+theorem C05_p2sh_multisig_size (m : Nat) (keys : List Bytes) (hmn : m ≤ keys.length) (hn : keys.length ≤ 20) :
+    ((∀ k ∈ keys, k.length = 33) → ((multisigScriptN m keys).length ≤ 520 ↔ keys.length ≤ 15)) ∧
+    ((∀ k ∈ keys, k.length = 65) → ((multisigScriptN m keys).length ≤ 520 ↔ keys.length ≤ 7)) := by
+  have hl : ∀ c, (∀ k ∈ keys, k.length = c) → (pushesOf keys).length = keys.length * (c + 1) := by
+    intro c hc
+    clear hmn hn
+    induction keys with
+    | nil => simp [pushesOf]
+    | cons d r ih =>
+      have e : pushesOf (d :: r) = directPush d ++ pushesOf r := by simp [pushesOf]
+      rw [e, List.length_append, ih (fun k hk => hc k (List.mem_cons_of_mem _ hk))]
+      simp [directPush, hc d (by simp), Nat.succ_mul]; omega
+  have c1 := countPush_length m
+  have c2 := countPush_length keys.length
+  constructor
+  · intro h
+    have := hl 33 h
+    simp only [multisigScriptN, List.length_append, List.length_cons, List.length_nil]
+    split at c1 <;> split at c2 <;> omega
+  · intro h
+    have := hl 65 h
+    simp only [multisigScriptN, List.length_append, List.length_cons, List.length_nil]
+    split at c1 <;> split at c2 <;> omega
 
 /-! ## partial signing -/
 
@@ -555,44 +650,13 @@ theorem C05_partial_order_independent_partial (nSigs : Nat) (placeholder : Optio
     simp only [hl]
     rw [sortSigs_eq_of_perm (List.Perm.append_right _ h)]
 
-theorem sigLe_refl (a : Int × Bytes) : sigLe a a = true := by
-  unfold sigLe; simp [bytesLt_irrefl]
-
-/-- with `k` missing signatures the placeholder sits in the first `k` slots and the signatures follow by key index -/
-theorem sortSigs_padded (ex : List (Int × Bytes)) (ph : Bytes) (k : Nat) (hidx : ∀ p ∈ ex, 0 ≤ p.1) :
-    sortSigs (ex ++ List.replicate k ((-1 : Int), ph)) = List.replicate k ((-1 : Int), ph) ++ sortSigs ex := by
-  apply List.Perm.eq_of_pairwise (le := fun x y => sigLe x y = true)
-  · intro a b _ _ h1 h2; exact sigLe_antisymm a b h1 h2
-  · exact sortSigs_sorted _
-  · rw [List.pairwise_append]
-    refine ⟨?_, sortSigs_sorted ex, ?_⟩
-    · rw [List.pairwise_replicate]
-      right; exact sigLe_refl _
-    · intro a ha b hb
-      rw [List.mem_replicate] at ha
-      have hb' := (sortSigs_perm ex).subset hb
-      have := hidx b hb'
-      rw [ha.2]
-      unfold sigLe
-      have : (-1 : Int) < b.1 := by omega
-      simp [this]
-  · exact (sortSigs_perm _).trans (List.perm_append_comm.trans (List.Perm.append_left _ (sortSigs_perm ex).symm))
-
 /-- **Complete exactly when `m` signatures are there.**  With `j ≤ m` collected signatures (key indices ≥ 0) the result is
 `m − j` placeholders followed by the `j` signatures in key-index order: no placeholder iff `j = m`. -/
 theorem C05_partial_placeholders (nSigs : Nat) (ph : Bytes) (ex : List (Int × Bytes)) (hidx : ∀ p ∈ ex, 0 ≤ p.1)
     (hle : ex.length ≤ nSigs) :
     assemble nSigs (some ph) ex =
-      List.replicate (nSigs - ex.length) (some ph) ++ (sortSigs ex).map (fun t => some t.2) := by
-  unfold assemble
-  simp only [sortSigs_padded ex ph _ hidx]
-  have hlen : (sortSigs ex).length = ex.length := (sortSigs_perm ex).length_eq
-  simp only [List.map_append, List.map_replicate, List.length_append, List.length_replicate, List.length_map, hlen]
-  have : nSigs - (nSigs - ex.length + ex.length) = 0 := by omega
-  rw [this]
-  simp only [List.replicate_zero, List.append_nil]
-  apply List.take_of_length_le
-  simp [hlen]; omega
+      List.replicate (nSigs - ex.length) (some ph) ++ (sortSigs ex).map (fun t => some t.2) :=
+  assemble_placeholders nSigs ph ex hidx hle
 
 
 /-! ## the placeholder -/
@@ -867,7 +931,7 @@ section digests
 open Pycoin.Sighash
 
 /-- **The digest the witness templates are signed over is the BIP143 digest** (C04): for every well-formed transaction the
-`z` of `C05_p2wpkh_end_to_end` / `C05_p2sh_p2wpkh_end_to_end` / `C05_multisig_p2wsh_valid_partial` exists and is the
+`z` of `C05_p2wpkh_end_to_end` / `C05_p2sh_p2wpkh_end_to_end` / `C05_multisig_p2wsh_valid` exists and is the
 consensus definition (fork-id variants: `C04_forkid_eq_bch`, `C04_forkid_eq_btg`). -/
 theorem C05_witness_digest_is_bip143 (c : Coin) (hc : c ≠ .btg) (tx : Tx) (hwf : tx.WF) (us : List (Option TxOut)) (idx : Nat)
     (hidx : idx < tx.ins.length) (o : TxOut) (hu : us[idx]? = some (some o)) (hamt : U64 o.value) (script : Bytes)
